@@ -21,6 +21,7 @@ func init() {
 }
 
 func runC11(w *W) {
+	perturbCache = true
 	fd := func(table, key, val, wit string) { w.FDCheck(table, key, hashStr(val), wit) }
 	sweepDays(w, "C11", func(d *Day, prev *Day) {
 		var times []hms
